@@ -96,3 +96,16 @@ package node
 //@   at call DeleteNetworkInterfaceV2: ghost c08sdelerr = (result != nil)
 //@   loop 2 invariant c08sdelerr ==> err != nil
 //@ guard call delete in syncWithAPI: !c08sdelerr
+
+//@ for C02 C03
+//@ # merging the cloud's view into the record never turns an address that is bound to a pod into one scheduled for deletion
+//@ guard? store IP.Status in mergeIPMap: value != "Deleting" || target.PodID == ""
+
+//@ for C08
+//@ # every reconcile of a node's pods runs the top-up step (which is where the pool's minimum enters the demand), whether or
+//@ # not a pod was left unserved by the local pool
+//@ ghost c08added bool = false
+//@ func ReconcileNode.syncPods
+//@   requires n != nil && node != nil && n.tracer != nil
+//@   at call ReconcileNode.addIP: ghost c08added = true
+//@   ensures c08added
